@@ -115,6 +115,8 @@ def run(ctx):
                       "ownership token of a pending evaluation", floor=1)
     ctx.rule("R08.i", "(shared with R10.c) in reactive.py every write of the cached result after a suspension point is guarded by `self._current_task is task`, and the task is registered before "
                       "the first suspension: of two evaluations started in the same tick the older one cannot publish last", floor=2)
+    ctx.rule("R08.q", "rx reference transform: _rx_transform interpreted on a root expression over a bound function of one Parameter (same shape as `p.rx()` apart from `_fn`): the reference "
+                      "evaluates the expression, it is not the bare Parameter", floor=1)
     ctx.rule("R08.o", "nested references are resolved at every depth: resolve_value (with the real resolve_ref) interpreted on [[P, 0]], {'a': {'v': P}}, ([P],), [P, [P]] returns the same shape "
                       "with the source's current value in place of the Parameter", floor=1)
     ctx.rule("R08.n", "update model (shared with R02.u): Parameters._update -- through which _sync_refs pushes every linked parameter a source event affects -- assigns each key once and never "
@@ -354,6 +356,7 @@ def run(ctx):
     update_model.report(ctx, "C08", "R08.n")
     from checks.c09 import nested_references_are_resolved
     nested_references_are_resolved(ctx, "R08.o")
+    rx_reference_transform(ctx, "R08.q")
 
     from checks.shared import flush_model
     flush_model(ctx, "R08.h")
@@ -474,3 +477,47 @@ def _enclosing(fnode, target):
     visit(fnode, [])
     return out
 
+
+
+def rx_reference_transform(ctx, rule):
+    """_rx_transform (the reference transform that lets an `allow_refs` parameter follow a reactive expression) interpreted on
+    a ROOT expression without operation that wraps (a) a plain Parameter (`p.rx()`) and (b) a bound / depends FUNCTION of one
+    Parameter (`rx(bind(f, p))`): both have exactly one dependency and look alike from `_prev` / `_operation` / `_method`.
+
+    Specification: for (b) the reference handed back evaluates the expression (a function built with `bind` over the
+    expression's parameters); the bare Parameter would make the linked parameter hold x instead of f(x)."""
+    from engine.absint import Interp, Obj, Unsupported
+    f = ctx.repo.func("param.reactive._rx_transform")
+    P_ = Obj("Parameter_x", __kind__="Parameter")
+    made = []
+
+    def hook(fn, args, kwargs):
+        if fn == "isinstance" and len(args) == 2:
+            return isinstance(args[0], Obj) and args[0].attrs.get("__kind__") == ("rx" if args[1] == "rx" else "Parameter")
+        if fn == "bind" and args:
+            b = Obj("bound_function_evaluating_the_expression", args=tuple(args[1:]))
+            made.append(b)
+            return b
+        if fn == "len" and len(args) == 1 and isinstance(args[0], (list, tuple)):
+            return len(args[0])
+        return NotImplemented
+    problems = []
+    for desc, fnval in (("rx(bind(f, p)) -- a root over a function of one Parameter", Obj("bound_function_f_of_x")), ("p.rx() -- a root over the Parameter itself", None)):
+        expr = Obj("root_expression", __kind__="rx", _params=[P_], _prev=None, _operation=None, _method=None, _wrapper=None, _fn=fnval, _fn_params=[P_] if fnval is not None else [],
+                   _internal_params=[P_], _obj=None, _shared_obj=[None], _trigger=None, _kwargs={})
+        it = Interp(ctx.hier, call_hook=hook, globals={"rx": "rx", "Parameter": "Parameter"})
+        try:
+            outs = it.run_all(f, {f.params[0]: expr})
+        except Unsupported as e:
+            raise AnalysisError("%s: absint cannot interpret _rx_transform: %s" % (rule, e))
+        if len(outs) != 1 or outs[0].imprecise or outs[0].kind != "return":
+            raise AnalysisError("%s: _rx_transform is not interpretable precisely (%s)" % (rule, outs[0].notes[:2] if outs else "no outcome"))
+        ctx.abstract_cases += 1
+        r = outs[0].value
+        if fnval is not None and (r is P_ or not any(r is b for b in made)):
+            problems.append("%s: the transform hands back %s instead of a function that evaluates the expression: a parameter linked to it mirrors the raw parameter x, not f(x)" % (
+                desc, getattr(r, "name", r)))
+    if problems:
+        ctx.fail(rule, f, f.node, "rx reference transform: %s" % problems[0], key=f.qualname + "::root-over-a-function", input="t.v = param.rx(bind(lambda x: x * 10, s.param.x)) -> t.v == s.x instead of s.x * 10")
+    else:
+        ctx.ok(rule, f, f.node, "rx reference transform: a root expression over a function is referenced through a function that evaluates the expression")
